@@ -260,7 +260,7 @@ class Report:
         return status
 
 
-def triage(rep, native, evaluate_native, sig_of, max_replays_per_sig=2, natrun=None, known_without_confirmation=False):
+def triage(rep, native, evaluate_native, sig_of, max_replays_per_sig=2, natrun=None, known_without_confirmation=False, escalate=None):
     """group findings by signature, match against the known-findings file, replay natively.
     evaluate_native(finding, native_obs) -> list of failing messages (empty = not reproduced)."""
     known = load_known()
@@ -282,6 +282,18 @@ def triage(rep, native, evaluate_native, sig_of, max_replays_per_sig=2, natrun=N
             if bad:
                 confirmed = (f, bad, obs)
                 break
+        if confirmed is None and escalate is not None:
+            # the solver's counterexample rests on a freedom the std contract leaves open (e.g. the order of equal
+            # elements after an unstable sort) that the native build only exercises on larger inputs: try scaled-up
+            # variants of the same scenario natively; what is reported is then the variant that does reproduce
+            for alt in escalate(fs[0]) or ():
+                f2 = dict(fs[0], scen=alt, msg=fs[0]['msg'] + '  [reproduced natively on a scaled-up variant of the solver\'s scenario]')
+                obs = natrun(native, alt) if natrun else native.run([alt])[0]
+                rep.replays += 1
+                bad = evaluate_native(f2, obs)
+                if bad:
+                    confirmed = (f2, bad, obs)
+                    break
         if confirmed is None:
             if k is not None and known_without_confirmation:
                 # timing-dependent replays (threads): a listed finding that did not reproduce in this run's attempts
